@@ -10,8 +10,8 @@ or UnsatisfiableReadError (delimiter not within max_bytes).
 Oracle (the statement): every future is completed exactly once; a read that the received bytes satisfy
 completes with exactly those bytes, everything else fails with StreamClosedError whose real_error is the
 injected error; the close callback runs exactly once and after all futures are settled; the fd is closed
-exactly once and the handler removed; later write / connect-less operations fail with StreamClosedError
-without touching the fd; later reads succeed only from bytes that were already buffered.
+exactly once and the handler removed; later writes of any payload (non-empty, b"", empty memoryview, empty
+bytearray) fail with StreamClosedError carrying the close cause without touching the fd; later reads succeed only from bytes that were already buffered.
 """
 from typing import List
 
@@ -75,7 +75,7 @@ _C_STUBS = ["FakeFdStream scripted kernel (harness/_iostream_rig.py); right afte
     nshards=dict(quick=70, thorough=70),
     classify=lambda **a: _classify(h_close_read, a),
     reach=["read_completed_at_close", "read_failed_real_error", "unsatisfiable", "callback_ran",
-           "later_read_from_buffer", "inline_error_raised",
+           "later_read_from_buffer", "inline_error_raised", "later_empty_write_refused",
            "unsat_inline_until", "unsat_inline_regex", "unsat_deferred_until", "unsat_deferred_regex"],
     units=_C_UNITS, stubs=_C_STUBS,
     outside=["more than one pending read (the API forbids it)", "SSL handshake futures",
@@ -106,7 +106,7 @@ def pre_cw(cause: int, nw: int, wa: int, cb: bool, conn: bool, pend: int, defer:
     nshards=dict(quick=18, thorough=18),
     reach=["write_failed", "connect_failed", "callback_ran", "read_failed_real_error",
            "unsat_inline_until", "unsat_inline_regex", "unsat_deferred_until", "unsat_deferred_regex",
-           "write_failed_by_unsatisfiable"],
+           "write_failed_by_unsatisfiable", "later_empty_write_refused"],
     classify=lambda **a: _classify(h_close_write, a),
     units=_C_UNITS, stubs=_C_STUBS,
     outside=["more than 2 pending writes", "SSL handshake futures", "close callbacks that raise", "cancelled futures"],
@@ -306,13 +306,26 @@ def _close_body(cause, rk, rn, rm, b0, nw, wa, cb, conn, rscript, tail, later):
         s.close()
         env.run_ready()
         assert k.fd_closed == 1 and (not cb or cb_runs == [True]), "second close() had effects"
-        try:
-            s.write(b"zz")
-            wrote = True
-        except iostream.StreamClosedError as e:
-            wrote = False
-            assert e.real_error is want_err
-        assert not wrote and len(k.sent) == sent, "write succeeded after close"
+        # later writes of every payload kind - non-empty bytes, b"", an empty memoryview, an empty bytearray -
+        # must all be refused the same way (on every explored close scenario, not on a chosen one)
+        wcalls = k.wcalls
+        nfut = len(env.v.ready)
+        for label, payload in (("bytes", b"zz"), ("empty bytes", b""), ("empty memoryview", MV(b"")),
+                               ("empty bytearray", BA()), ("memoryview", MV(b"q"))):
+            try:
+                s.write(payload)
+                outcome = "succeeded"
+            except iostream.StreamClosedError as e:
+                outcome = None
+                assert e.real_error is want_err, \
+                    "later write(%s): real_error %r, the close cause was %r" % (label, e.real_error, want_err)
+            except Exception as e:
+                outcome = "raised %r" % (e,)
+            assert outcome is None, "write(%s) after close %s instead of raising StreamClosedError" % (label, outcome)
+            assert len(k.sent) == sent and k.wcalls == wcalls, "write(%s) after close reached the fd" % label
+            if len(payload) == 0:
+                reached("later_empty_write_refused")
+        env.run_ready()
         read_failed = "read" in futs and futs["read"].exception() is not None
         _TRACK["after_failed"] = read_failed
         if inline_exc is None and not (read_failed and KEY_AFTER_FAILED in P.exclude):
